@@ -320,6 +320,33 @@ func (in *interp) nodes(ns []Node) ([]*xm, string) {
 			if n.Set.If != nil && in.holds(*n.Set.If) {
 				out = append(out, &xm{id: n.Set.ID, why: "wrapper of the setter of " + n.Set.Name + ", " + in.scopeNote()})
 			}
+		case n.List != nil:
+			// the component's own loop: one <li> per item, the slot content evaluated in the page's
+			// scope plus the props of that item (a prop bound to an undefined value is undefined)
+			ul := &xm{id: "ul", why: "list component over " + n.List.Items}
+			coll, ok := in.resolve(n.List.Items)
+			var items []vals.V
+			if ok {
+				items = elems(coll)
+			}
+			for i, it := range items {
+				props := map[string]vals.V{"item": it, "index": vals.Int(i)}
+				if nt, has := field(it, "note"); has {
+					props["note"] = nt
+				}
+				sc := props
+				if !n.List.Destr {
+					sc = map[string]vals.V{"sp": vals.Map(props)}
+				}
+				in.scopes = append(in.scopes, sc)
+				in.stat("slot-instance")
+				if _, has := props["note"]; !has {
+					in.stat("slot-instance-without-note")
+				}
+				ul.kids = append(ul.kids, &xm{id: "li", kids: []*xm{in.probe(&n.List.Content)}, why: fmt.Sprintf("slot instance %d", i)})
+				in.scopes = in.scopes[:len(in.scopes)-1]
+			}
+			out = append(out, ul)
 		case n.Loop != nil:
 			ms, t := in.loop(n.Loop)
 			out = append(out, ms...)
